@@ -3,6 +3,7 @@
 package checks
 
 import (
+	"encoding/base64"
 	"fmt"
 	"math/big"
 	"math/rand"
@@ -475,6 +476,9 @@ func (e *c08Env) step(stPack, icsPack func(string, ...any) ([]byte, error)) {
 	before := e.balances()
 	coin := func(x sdkmath.Int) sdk.Coins { return sdk.NewCoins(sdk.NewCoin(d, x)) }
 	k := rng.Intn(100)
+	if rng.Intn(25) == 0 {
+		k = 56 // a validator can be created once per account: both routes get their share of first attempts
+	}
 	switch {
 	case k < 8:
 		x, cls := e.spendAmount(h, d, false)
@@ -602,6 +606,19 @@ func (e *c08Env) step(stPack, icsPack func(string, ...any) ([]byte, error)) {
 		msg, err := stakingtypes.NewMsgCreateValidator(sdk.ValAddress(h.acc.Addr), pk, sdk.NewCoin(vn.Denom, x), stakingtypes.Description{Moniker: "x"},
 			stakingtypes.NewCommissionRates(sdk.NewDecWithPrec(1, 1), sdk.NewDecWithPrec(2, 1), sdk.NewDecWithPrec(1, 2)), sdkmath.OneInt())
 		vn.Must(err)
+		if e.rng.Intn(2) == 0 { // the same through the staking precompile
+			data, err := stPack("createValidator", stakingpc.Description{Moniker: "x"},
+				stakingpc.Commission{Rate: sdk.NewDecWithPrec(1, 1).BigInt(), MaxRate: sdk.NewDecWithPrec(2, 1).BigInt(), MaxChangeRate: sdk.NewDecWithPrec(1, 2).BigInt()},
+				big.NewInt(1), h.acc.Eth, sdk.ValAddress(h.acc.Addr).String(), base64.StdEncoding.EncodeToString(pk.Bytes()), x.BigInt())
+			vn.Must(err)
+			_, ok := e.ethFrom(h, addrStaking, nil, data, 900_000)
+			if ok {
+				h.dRef = h.dRef.Add(x)
+			}
+			e.log("%s precompile createValidator %s ok=%v", h.name, x, ok)
+			e.judge("create-validator-precompile", "delegation", h, before, ok, cls)
+			return
+		}
 		res := e.cosmos(h.acc, sdk.NewCoins(), nil, msg)
 		if res.Code == 0 {
 			h.dRef = h.dRef.Add(x)
